@@ -191,6 +191,17 @@ def _call(resp, api, arg, decode):
         return resp.read(arg, decode_content=decode)
     if api == "read1":
         return resp.read1(arg, decode_content=decode)
+    if api == "rc_refused":
+        # read_chunked() on a response that is not chunked: the documented refusal (ResponseNotChunked); it presents no
+        # data and must leave the body readable for the calls that follow
+        from urllib3.exceptions import ResponseNotChunked
+
+        try:
+            for _ in resp.read_chunked():
+                break
+        except ResponseNotChunked:
+            return b""
+        raise AssertionError("read_chunked() on a non-chunked response did not raise ResponseNotChunked")
     if api == "readinto":
         buf = bytearray(arg)
         n = resp.readinto(buf)
